@@ -4,7 +4,7 @@ import copy, io, random
 import core, store_common as sc
 
 ID = 'C13'
-GENMODS = ['gen_store']
+GENMODS = ['gen_store', 'gen_glue']
 TARGET = 'props/C13.vo'
 PROOF_FILES = ['proof/C13.v', 'proof/IniProofs.v', 'proof/IniFile.v', 'proof/IniFile2.v', 'proof/StoreText.v', 'props/C13.v']
 AXIOMS = []
